@@ -21,7 +21,8 @@ RULE = (
     "one or two connections (each with its own in-memory message broker, args and results bucket brokers) alive in the "
     "interpreter, each with a seeded subscriber set: signal name (26), signature = any subset of the operation's argument "
     "names with/without 'result', sync or async, slow (virtual delay) or raising; plus one logging subscriber per signal. "
-    "Per connection a full lifecycle: declare, enqueue in positional and keyword call styles, worker run (return / raise / "
+    "Per connection a full lifecycle: declare, enqueue in positional and keyword call styles (and, in half of the runs, calls "
+    "which leave optional arguments out: enqueue(key), requeue(key)), worker run (return / raise / "
     "retry / eager ack inside the actor, args and results buckets), bucket delete, flush, delete; both workers run concurrently. "
     "A recording shim around repid's wrapper (own nesting counter, independent of IsInsideMiddleware) sees every wrapped call. "
     "Oracle: per top-level call exactly one before_X before the effect and one after_X iff it returned, with the call's actual "
@@ -63,14 +64,24 @@ def gen(rng, broker, tier):
         for i in range(rng.randint(2, 4)):
             jobs.append({"conn": c, "id": f"c{c}j{i}", "kind": rng.choice(["return", "raise", "retry", "eager-ack"]),
                          "style": rng.choice(["job", "positional", "keyword"])})
-    return {"nconn": nconn, "subscribers": subs, "jobs": jobs,
+    return {"nconn": nconn, "subscribers": subs, "jobs": jobs, "minimal": rng.random() < 0.5,
             "knobs": {"step_cost": rng.choice([0, 0, 1, "rand"])}}
 
 
-def _make_sub(name, argnames, kind, fn_body):
-    """a subscriber function called `name` with exactly the given parameter names"""
-    ns = {"_body": fn_body}
+_MISSING = object()
+
+
+def _make_sub(name, argnames, kind, fn_body, optional=False):
+    """a subscriber function called `name` with exactly the given parameter names (optional=True: every parameter has a
+    default, the body only sees the arguments the signal really carried)"""
+    ns = {"_body": fn_body, "_M": _MISSING}
     params = ", ".join(argnames)
+    if optional:
+        params = ", ".join(f"{a}=_M" for a in argnames)
+        src = (f"async def {name}({params}):\n    return await _body({{k: v for k, v in "
+               f"{{{', '.join(repr(a) + ': ' + a for a in argnames)}}}.items() if v is not _M}})\n")
+        exec(src, ns)  # noqa: S102
+        return ns[name]
     passed = ", ".join(f"{a}={a}" for a in argnames)
     if kind == "async":
         src = f"async def {name}({params}):\n    return await _body({{{', '.join(repr(a) + ': ' + a for a in argnames)}}})\n"
@@ -156,7 +167,7 @@ async def _main(sim, sc, out):
                 async def log_body(kwargs, ci=ci, signame=signame):
                     signals.append((nxt(), ci, signame, dict(kwargs), _CALL.get()))
 
-                conn.middleware.add_subscriber(_make_sub(signame, names, "async", log_body))
+                conn.middleware.add_subscriber(_make_sub(signame, names, "async", log_body, optional=True))
     if not sc.get("no_subscribers"):
         for s in sc["subscribers"]:
             if s["conn"] >= len(conns):
@@ -227,6 +238,20 @@ async def _main(sim, sc, out):
                     await conn.message_broker.enqueue(key, payload, params)
                 else:
                     await conn.message_broker.enqueue(key=key, payload=payload, params=params)
+        if sc.get("minimal"):
+            # calls which leave optional arguments out: a subscriber that names them gets nothing for them (its failure to
+            # bind is the subscriber's problem, never the caller's)
+            await conn.message_broker.queue_declare(f"qx{ci}")
+            kx = RoutingKey(id_=f"x{ci}", topic="act", queue=f"qx{ci}")
+            await conn.message_broker.enqueue(kx)
+            cx = conn.message_broker.get_consumer(f"qx{ci}", None, None)
+            await cx.start()
+            k2, _, _ = await cx.consume()
+            await conn.message_broker.requeue(k2)
+            k3, _, _ = await cx.consume()
+            await conn.message_broker.ack(k3)
+            await cx.finish()
+            await conn.message_broker.queue_delete(f"qx{ci}")
         try:
             await asyncio.wait_for(w.run(), timeout=30)
         except asyncio.TimeoutError:
